@@ -10,6 +10,7 @@ class Facts:
         self._lib = None
         self._spec = None
         self._kfun = None
+        self._bind = None
         self.units = []
 
     # ---------------- kernels
@@ -66,6 +67,34 @@ class Facts:
                     raise AnalysisError("front end met unknown AST node kinds %s in %s" % (tu["unknown"], tu["path"]))
             self.units.append("src/libawkward/**/*.cpp: %d translation units, %d function bodies (patterns + instantiations)" % (len(self._lib), sum(len(t["funcs"]) for t in self._lib.values())))
         return self._lib
+
+    # ---------------- pybind11 layer (parsed against the declaration-only stub in /verif/stubs/pybind11)
+    def binding_tus(self):
+        if self._bind is None:
+            files = cxx.binding_files()
+            if len(files) < 10:
+                raise AnalysisError("only %d files under src/python" % len(files))
+            self._bind = cxx.parse_many([(p, "binding") for p in files])
+            for p, tu in self._bind.items():
+                if tu["errors"]:
+                    raise AnalysisError("clang reports errors in %s (pybind11 stub out of date?): %s" % (tu["path"], tu["errors"][:2]))
+                if tu["unknown"]:
+                    raise AnalysisError("front end met unknown AST node kinds %s in %s" % (tu["unknown"], tu["path"]))
+            self.units.append("src/python/*.cpp: %d translation units, %d function bodies (parsed with a declaration-only pybind11 stub)" % (len(self._bind), sum(len(t["funcs"]) for t in self._bind.values())))
+        return self._bind
+
+    def binding_funcs(self, inst=False):
+        seen, out = set(), []
+        for p, tu in sorted(self.binding_tus().items()):
+            for f in tu["funcs"]:
+                if bool(f["inst"]) != bool(inst):
+                    continue
+                k = (f["qual"], f["file"], f["line"], f["targs"], f["ftargs"])
+                if k in seen:
+                    continue
+                seen.add(k)
+                out.append(f)
+        return out
 
     with_inst = False   # thorough tier: structural rules also see every template instantiation
 
